@@ -225,9 +225,16 @@ class Gen:
         if k == "fold_stream":
             s = r.choice(sc["streams"])
             it = self.fresh("i")
-            inner = dict(sc, scalars=dict(sc["scalars"]), iters=dict(sc["iters"]), streams=list(sc["streams"]), canons=list(sc["canons"]))
+            # the body must not append to the stream it iterates unconditionally (that recursion only
+            # stops at the stream size limit); a guarded recursive append is generated separately
+            inner = dict(sc, scalars=dict(sc["scalars"]), iters=dict(sc["iters"]),
+                         streams=[x for x in sc["streams"] if x != s], canons=list(sc["canons"]))
             inner["iters"][it] = "any"
+            inner["no_new_streams"] = True
             body = self.instr(inner, max(d - 2, 0))
+            if getattr(p, "recursive_streams", True) and r.random() < 0.25:
+                guard = r.choice(['"a"', '"x"', "1", '"s.tag"', '"p"'])
+                body = '(seq (xor (match %s %s (ap "rec" %s)) (null)) %s)' % (it, guard, s, body)
             if r.random() < 0.6:
                 b = "(seq %s (next %s))" % (body, it)
             else:
